@@ -14,11 +14,12 @@ Script lines (numbers are rationals `p/q`; seconds are relative to the start of 
                    <clk>:c                clk.clear()
                    <clk>:T:<v>            clk.tempo = v
                    <clk>:E:<v>            clk.etempo(v)
+                   <clk>:d:<delta>:<task> defer(callable of the plain task, delta, clk): runs exactly once
                    +:<dt>                 the task takes dt of physical time
         result:    r:<delta> (return/yield a number; ri:<int> an IntEnum member, rf:<delta> a float subclass) | d (return None / end) | x (raise) |
                    n (a str) | bt (True) | bf (False) | o (an object): only a number re-schedules
   new <i> <rate> [p]                     t<i> = TempoClock(rate); p: t<i>.permanent = True
-  cmdp                                   CmdPeriod.run() (servers untouched): clears every clock, stops the
+  cmdp [h]                               CmdPeriod.run() / hard_run() (servers untouched): clears every clock, stops the
                                           non-permanent TempoClocks; events of this line are sorted (the library
                                           walks a set of clocks)
   adv <dt>
@@ -85,7 +86,7 @@ class _Handler(logging.Handler):
         try:
             m = re.search(r'task(\d+)', str(rec.args[1]))
             where = rec.msg
-            tid = int(m.group(1)) if m else -1
+            tid = int(m.group(1)) if m else _S.get('current', -1)
         except Exception:
             where, tid = str(rec.msg), -1
         vt.log.append(('error', where, tid, rec.args))
@@ -199,6 +200,7 @@ class Case:
             return res
 
         def observe(clock):
+            _S['current'] = tid
             k = case.cname(clock)
             n = case.awakes.get(tid, 0) + 1
             case.awakes[tid] = n
@@ -282,6 +284,11 @@ class Case:
             c.tempo = num(w[1])
         elif w[0] == 'E':
             c.etempo(num(w[1]))
+        elif w[0] == 'd':
+            f = self.tasks[int(w[2])]            # a plain function (kind P)
+            g = lambda: f(None, c)
+            g._tid = int(w[2])
+            self.clk.defer(g, num(w[1]), c)
         else:
             raise ValueError(w)
 
@@ -386,7 +393,17 @@ class Case:
             c = self.clocks[k]
             q = c._scheduler.queue if k == 'a' else c._task_queue
             tid = {id(t): i for i, t in self.tasks.items()}
-            items = [f'{fr(p - self.off(k))}:{tid.get(id(t), tid.get(id(getattr(t, "func", None)), -1))}' for p, t in q]
+            def name(t):
+                if id(t) in tid:
+                    return tid[id(t)]
+                f = getattr(t, 'func', None)
+                if id(f) in tid:
+                    return tid[id(f)]
+                try:                              # defer's wrapper: its closure holds our callable
+                    return f.__closure__[0].cell_contents._tid
+                except Exception:
+                    return -1
+            items = [f'{fr(p - self.off(k))}:{name(t)}' for p, t in q]
             out.append(f'{k}[' + ','.join(items) + ']')
         return ' '.join(out)
 
@@ -460,7 +477,15 @@ class Case:
                 n = len(vt.recs)
                 res = []
                 try:
-                    sac.CmdPeriod.run()
+                    if w[-1] == 'h':
+                        # servers are left out, as `free_servers = False` does for run()
+                        from unittest import mock
+                        from sc3.synth import server as srv
+                        with mock.patch.object(srv.Server, 'hard_free_all', new=lambda *a, **k: None), \
+                                mock.patch.object(srv.Server, '_resume_status_threads', new=lambda *a, **k: None):
+                            sac.CmdPeriod.hard_run()
+                    else:
+                        sac.CmdPeriod.run()
                 except Exception as e:
                     res.append(f'R:{type(e).__name__}')
                 stoppers = {}
@@ -485,7 +510,7 @@ class Case:
             if w[0] == 'op':
                 k = w[2]
                 res = []
-                if w[3] in ('s', 'q') and int(w[5]) not in self.tasks:
+                if w[3] in ('s', 'q', 'd') and int(w[5]) not in self.tasks:
                     return 'HARNESS-EXC:unknown task'
                 if w[3] == 'stop':
                     fn = lambda: self.stop(k)
